@@ -26,6 +26,7 @@ UNMODELLED = ["expand_vectors", "resolve_parameter_values", "factor_and_simplify
 ELIM_RE = r"_e\w*"
 TAG_SEGV = "cyclic-eliminable-assignments-segfault"
 TAG_FREE = "cyclic-eliminable-assignments-free-symbols"
+TAG_AFFINE = "reduce-affine-with-initial-equations-free-state-vectors"
 
 
 # ---------------------------------------------------------------------------
@@ -240,6 +241,107 @@ def gen_model(rng, big=False):
             "elim_graph": elim_graph, "names": sorted(val)}
 
 
+ALIAS_FORMS = [("%(n)s = %(w)s", False), ("%(w)s = %(n)s", False), ("%(n)s - %(w)s = 0", False),
+               ("%(w)s - %(n)s = 0", False), ("0 = %(n)s - %(w)s", False), ("%(n)s = -%(w)s", True),
+               ("%(w)s = -%(n)s", True), ("%(n)s + %(w)s = 0", True), ("%(w)s + %(n)s = 0", True),
+               ("-%(n)s = %(w)s", True), ("0 = %(w)s + %(n)s", True)]
+
+
+def gen_alias_model(rng, affine=False):
+    """ALIAS-GRAPH stream: a forest of alias equations (every orientation, sign and spelling, any
+    equation order) over algebraic variables, der(states), states, inputs, parameters and constants
+    that stay symbolic.  Every unknown (algebraic variable or der(x)) is defined by exactly one
+    equation, so the solution is unique; non-eliminable variables get linked twice, an algebraic
+    variable is equated to two different non-eliminable ones (`der(x) = a; a = u`), groups get a new
+    canonical variable later (`a = b; b = u; a = c`)."""
+    val = {"time": dy(rng, 0, 3)}
+    decl, eqs, ieqs, kinds = [], [], [], {"alias_graph": 1}
+    anchors = []
+    for i in range(rng.randint(0, 2)):
+        n = "p%d" % (i + 1)
+        val[n] = dy(rng, nonzero=True)
+        if rng.random() < 0.3:
+            decl.append("parameter Real %s;" % n)
+        else:
+            decl.append("parameter Real %s = %s;" % (n, num(val[n]).strip("()")))
+        anchors.append(n)
+    for i in range(rng.randint(0, 2)):
+        n = "c%d" % (i + 1)
+        val[n] = dy(rng, nonzero=True)
+        decl.append("constant Real %s = %s;" % (n, num(val[n]).strip("()")))
+        anchors.append(n)
+    for i in range(rng.randint(0, 2)):
+        n = "u%d" % (i + 1)
+        val[n] = dy(rng, nonzero=True)
+        decl.append("input Real %s;" % n)
+        anchors.append(n)
+    states = []
+    for i in range(rng.randint(0, 2)):
+        n = "x%d" % (i + 1)
+        val[n] = dy(rng, nonzero=True)
+        decl.append("Real %s;" % n)
+        anchors.append(n)
+        states.append(n)
+    todo = ["a%d" % (i + 1) for i in range(rng.randint(2, 6))] + ["der(%s)" % x for x in states]
+    rng.shuffle(todo)
+    defined = []
+    for n in todo:
+        k = rng.random()
+        is_der = n.startswith("der(")
+        if not is_der:
+            decl.append("Real %s;" % n)
+        if k < 0.12 and not is_der:
+            v = dy(rng)
+            eqs.append(rng.choice(["%s = %s", "%s - %s = 0"]) % (n, num(v)))
+            val[n] = v
+            kinds["const_assign"] = kinds.get("const_assign", 0) + 1
+        elif k < 0.2 and (defined or anchors):
+            if affine:
+                w, c = rng.choice(defined + anchors), dy(rng, nonzero=True)
+                text, v = "%s * %s" % (num(c), w), c * val[w]
+            else:
+                text, v, _ = gen_expr(rng, defined + anchors, val, allow_time=False, maxterms=2)
+            eqs.append("%s = %s + 1.0" % (n, text))
+            val[n] = v + 1
+            kinds["expr"] = kinds.get("expr", 0) + 1
+        elif defined or anchors:
+            pool = defined if (defined and (rng.random() < 0.6 or not anchors)) else anchors
+            w = rng.choice(pool)
+            form, neg = rng.choice(ALIAS_FORMS)
+            eqs.append(form % {"n": n, "w": w})
+            val[n] = -val[w] if neg else val[w]
+            kk = ("alias_neg" if neg else "alias") + ("_der" if is_der or w.startswith("der(") else "")
+            kinds[kk] = kinds.get(kk, 0) + 1
+        else:
+            v = dy(rng)
+            eqs.append("%s = %s" % (n, num(v)))
+            val[n] = v
+        defined.append(n)
+    for x in states:
+        if rng.random() < 0.5:
+            w = rng.choice(defined)
+            ieqs.append("%s = %s + %s" % (x, w, num(val[x] - val[w])))
+    rng.shuffle(eqs)
+    text = "model M\n  %s\nequation\n  %s;\n%send M;\n" % (
+        "\n  ".join(decl), ";\n  ".join(eqs),
+        ("initial equation\n  %s;\n" % ";\n  ".join(ieqs)) if ieqs else "")
+    return {"text": text, "cls": "M", "val": val, "kinds": kinds, "n_unknowns": len(todo),
+            "elim_graph": {}, "names": sorted(val)}
+
+
+def gen_alias_options(rng):
+    o = {"detect_aliases": True,
+         "eliminate_constant_assignments": rng.random() < 0.5,
+         "replace_constant_values": rng.random() < 0.25,
+         "replace_parameter_values": rng.random() < 0.25,
+         "replace_parameter_expressions": rng.random() < 0.2,
+         "replace_constant_expressions": rng.random() < 0.2,
+         "allow_derivative_aliases": rng.random() < 0.8,
+         "iterative_simplification": rng.random() < 0.3,
+         "expand_mx": rng.random() < 0.3}
+    return o
+
+
 def gen_options(rng, force=None):
     o = {}
     for k in MODELLED_BOOL:
@@ -357,6 +459,16 @@ def judge_c14(case, res):
         return None          # failure was reported: allowed by the property
     post = res["post"]
     pt = {k: F(v) for k, v in case["point"].items()}
+    if case["options"].get("reduce_affine_expression"):
+        # equations are now over the state vectors: judge through the residual functions
+        for which in ("dae_residual", "initial_residual"):
+            r = post[which]
+            if not r.get("built") or "evalexc" in r:
+                return None          # nothing to evaluate: C15's subject
+            bad = [x for x in r["vals"] if fr(x) is None or fr(x) != 0]
+            if bad:
+                return ("solution-lost", "the original solution does not satisfy the affine %s (%s)" % (which, bad[:3]))
+        return None
     for k, label in (("eqvals_sol", "equations"), ("ieqvals_sol", "initial equations")):
         v = post[k]
         if isinstance(v, dict):
@@ -402,17 +514,29 @@ def judge_c15(case, res):
     for which in ("dae_residual", "initial_residual"):
         r = post[which]
         if not r.get("built"):
-            return (TAG_FREE if cyc else "residual-not-buildable",
+            aff = (case["options"].get("reduce_affine_expression") and pre["eqs"] and pre["ieqs"]
+                   and "_vector" in r.get("msg", ""))
+            return (TAG_FREE if cyc else TAG_AFFINE if aff else "residual-not-buildable",
                     "%s_function cannot be built after simplify(): %s" % (which, r.get("msg", "")[-160:]))
     if limit_warning(res):
         return None
+    o = case["options"]
+    keep = [("inputs", True), ("states", not elim_on(case)), ("ders", not elim_on(case)),
+            ("params", not any(o.get(k) for k in ("replace_parameter_values", "replace_parameter_expressions")))]
+    for k, applies in keep:
+        a = [x[0] if isinstance(x, list) else x for x in pre[k]]
+        b = [x[0] if isinstance(x, list) else x for x in post[k]]
+        if applies and a != b:
+            return ("non-eliminable-eliminated", "%s changed from %s to %s: only algebraic variables may be "
+                    "eliminated by these options" % (k, a, b))
     b0 = len(pre["ders"]) + len(pre["algs"]) - len(pre["eqs"])
-    b1 = len(post["ders"]) + len(post["algs"]) - post["n_eqs"]
+    n_eqs = post["dae_residual"].get("n") if o.get("reduce_affine_expression") else post["n_eqs"]
+    b1 = len(post["ders"]) + len(post["algs"]) - (n_eqs or 0)
     # pymoca's own balance counts states + alg_states (= der_states + alg_states for scalar models)
     if b0 != b1 or len(post["states"]) != len(post["ders"]):
         return ("unbalanced", "unknowns - equations changed from %d to %d (states %d, ders %d, algs %d, eqs %d)"
-                % (b0, b1, len(post["states"]), len(post["ders"]), len(post["algs"]), post["n_eqs"]))
-    if post["dae_residual"].get("n") != post["n_eqs"]:
+                % (b0, b1, len(post["states"]), len(post["ders"]), len(post["algs"]), n_eqs))
+    if post["dae_residual"].get("n") != n_eqs:
         return ("residual-size", "dae residual has %s rows for %d equations" % (post["dae_residual"].get("n"), post["n_eqs"]))
     if "evalexc" in post["dae_residual"]:
         return ("residual-eval", "dae residual cannot be evaluated: %s" % post["dae_residual"])
@@ -551,6 +675,11 @@ def build_cases(ctx):
                                            "eliminate_constant_assignments": True}))
         for o in osets:
             cases.append(make_case(rng, mdl, o))
+    # alias-graph stream (modelled options, detect_aliases always on, constants mostly symbolic)
+    for _ in range(ctx.scaled(45, 400)):
+        mdl = gen_alias_model(rng)
+        for _ in range(ctx.scaled(3, 4)):
+            cases.append(make_case(rng, mdl, gen_alias_options(rng)))
     # oracle-only stream: options outside the modelled set (preconditions of the property respected:
     # no reduce_affine_expression on non-affine models, no factor_and_simplify with zero factors)
     extra = []
@@ -558,6 +687,15 @@ def build_cases(ctx):
         mdl = gen_model(rng)
         o = gen_options(rng)
         o[rng.choice(["resolve_parameter_values", "expand_vectors", "factor_and_simplify_equations"])] = True
+        extra.append(make_case(rng, mdl, o))
+    # oracle-only: reduce_affine_expression on affine models (its precondition), with and without
+    # initial equations, combined with the value-replacement and alias options
+    for _ in range(ctx.scaled(14, 100)):
+        mdl = gen_alias_model(rng, affine=True)
+        o = gen_alias_options(rng)
+        o["detect_aliases"] = rng.random() < 0.5
+        o["iterative_simplification"] = False
+        o["reduce_affine_expression"] = True
         extra.append(make_case(rng, mdl, o))
     return cases, extra, n_corpus
 
@@ -663,8 +801,9 @@ def shared_run(ctx, judge, pid):
                                        "correspondence_cases": len(enc), "correspondence_skipped": skipped}
     ctx.notes["claimed_option_set"] = {"modelled": MODELLED_BOOL + ["eliminable_variable_expression"],
                                        "oracle_only": ["resolve_parameter_values", "expand_vectors (scalar models)",
-                                                       "factor_and_simplify_equations"],
-                                       "excluded": ["reduce_affine_expression", "expand_vectors on arrays",
+                                                       "factor_and_simplify_equations",
+                                                       "reduce_affine_expression (affine models)"],
+                                       "excluded": ["expand_vectors on arrays",
                                                     "if_else shapes of eliminable assignments",
                                                     "eliminable differentiated states", "delay arguments"]}
     ctx.assumptions += [
